@@ -1039,6 +1039,62 @@ def check_models(ctx: Ctx, geom, ml, models, jax, jnp):
     ctx.notes["model_timing_s"] = timings
 
 
+def check_models_unsorted_order(ctx: Ctx, geom, ml, models, jax, jnp):
+    """The batch is stored with (1,0) BEFORE (0,0) (an insertion order that is not the sorted one).  jax.vmap
+    rebuilds the dict inside the mapped function in sorted key order, the per-entry call sees the caller's order.
+    Equivariant layers address blocks by type, so both calls must agree; a conventional model flattens the tensor
+    components into scalar channels in storage order (to_scalar_multi_image), so its weights meet other channels
+    under vmap than alone: defect D13 of the unchanged tree (known finding), reported under its own key."""
+    import equiv
+    from jax import random
+
+    D, spatial, B = 2, (8, 8), 3
+    rng = np.random.Generator(np.random.PCG64(ctx.seed + 4242))
+    sig_sorted = equiv.signature([((0, 0), 1), ((1, 0), 1)])
+    sig_unsorted = equiv.signature([((1, 0), 1), ((0, 0), 1)])
+    key = random.PRNGKey(ctx.seed + 5)
+    filt = equiv.filter_bank(D)
+    first = lambda m, x: m(x)[0]  # noqa: E731
+    zoo = [
+        ("ConvContract/equivariant", None,
+         lambda sig: ml.ConvContract(sig, sig, filt, use_bias="auto", key=key), lambda m, x: m(x)),
+        ("ResNet/equivariant", None,
+         lambda sig: models.ResNet(D, sig, sig, depth=2, num_blocks=1, num_conv=1, equivariant=True, conv_filters=filt,
+                                   key=key), first),
+        ("ResNet/conventional", "D13-conventional-model-vmap-unsorted-key-order",
+         lambda sig: models.ResNet(D, sig, sig, depth=4, num_blocks=1, equivariant=False, kernel_size=3, key=key), first),
+    ]
+    x_sorted = equiv.random_blocks(rng, sig_sorted, D, spatial, lead=(B,))
+    for name, known_key, build, call in zoo:
+        for order_name, sig in (("sorted", sig_sorted), ("unsorted", sig_unsorted)):
+            x = {k: x_sorted[k] for k, _ in sig}  # same values, other storage order
+            try:
+                model = build(sig)
+                y = jax.vmap(lambda xi: call(model, xi), axis_name="batch")(equiv.to_multi_image(x, D, True))
+                y = {k: np.asarray(v) for k, v in y.items()}
+                scale = max(float(np.max(np.abs(v))) for v in y.values()) or 1.0
+                worst = 0.0
+                for i in range(B):
+                    alone = call(model, equiv.to_multi_image({k: v[i] for k, v in x.items()}, D, True))
+                    alone = {k: np.asarray(v) for k, v in alone.items()}
+                    if set(alone) != set(y):
+                        worst = float("inf")
+                        break
+                    worst = max(worst, max(float(np.max(np.abs(alone[k] - y[k][i]))) for k in y) / scale)
+            except Exception as e:
+                worst = float("inf")
+                name = f"{name} (raised {type(e).__name__}: {str(e)[:80]})"
+            case = {"part": "jax.vmap(model), storage order of the input types", "model": name, "D": D,
+                    "spatial": list(spatial), "batch": B, "storage_order": [list(k) for k, _ in sig],
+                    "rel_diff_vmap_vs_alone": worst, "inputs": "standard normal float32, PCG64(VERIF_SEED+4242)"}
+            ctx.case(("model-order", name, order_name), order_name == "unsorted", sample=case if order_name == "unsorted" and known_key else None)
+            ctx.hist("models_storage_order", f"{name}/{order_name}: {worst:.1e}")
+            if not worst <= 1e-3:
+                ctx.violation("oracle", f"{name}: vmap(model)(batch)[i] differs from model(batch[i]) by {worst:.3g} (relative) when the "
+                              f"input types are stored in {order_name} order {[list(k) for k, _ in sig]}", case,
+                              key=known_key if order_name == "unsorted" else None)
+
+
 def check_losses(ctx: Ctx, geom, ml, jnp):
     import equiv
 
@@ -1142,6 +1198,7 @@ def run(ctx: Ctx):
     check_losses(ctx, geom, ml, jnp)
     t.append(time.time())
     check_models(ctx, geom, ml, models, jax, jnp)
+    check_models_unsorted_order(ctx, geom, ml, models, jax, jnp)
     t.append(time.time())
     ctx.notes["timing_s"] = {"vmap+single": round(t[1] - t[0], 1), "methods": round(t[2] - t[1], 1),
                              "group_stats+losses": round(t[3] - t[2], 1), "models": round(t[4] - t[3], 1)}
